@@ -30,11 +30,13 @@ CONSTANTS Transports,      \* subset of {"udp", "tcp"}
           MaxRefresh,      \* refresh rounds per behaviour
           MaxDrops,        \* requests the server may leave unanswered per behaviour
           Reacts,          \* reactions explored: subset of AllReacts
+          AllocLen,        \* longest Allocate reaction script explored (the client makes at most 3 attempts)
           RefreshFaults,   \* how many of the three exchanges of one refresh round may meet a non-ok first answer
           Deviations       \* for self tests: {"RetryForever", "StaleNonceReuse", "DataBeforePermission"}
 
-AllReacts == {"ok", "e401", "e438", "e438r", "err", "drop", "badtx"}
-Stale(r) == r \in {"e401", "e438", "e438r"}
+AllReacts == {"ok", "e401", "e401r", "e438", "e438r", "err", "drop", "badtx"}     \* ...r: the error carries a NEW realm
+Stale(r) == r \in {"e401", "e401r", "e438", "e438r"}
+NewRealm(r) == r \in {"e401r", "e438r"}
 RefreshPeriod == 25          \* seconds, fixed in IceTransportRunner::run
 
 VARIABLES tr,        \* transport to the server
@@ -52,7 +54,13 @@ VARIABLES tr,        \* transport to the server
 
 vars == <<tr, pc, alloc, life, auth, sn, sr, conn, chan, nref, drops, age, hist>>
 
-NoAuth == [has |-> FALSE, n |-> 0, r |-> 0]
+\* credentials context: nonce generation n, realm generation r, and k = the realm generation the long-term key
+\* MD5(user:realm:pass) was computed with (k = r unless the key went stale)
+NoAuth == [has |-> FALSE, n |-> 0, r |-> 0, k |-> 0]
+\* the context after a stale-nonce answer issued nonce n1 / realm r1 (TurnAuthState::update_nonce)
+Renew(old, n1, r1) ==
+  [has |-> TRUE, n |-> n1, r |-> r1,
+   k |-> IF "StaleKeyOnRealmChange" \in Deviations /\ old.has THEN old.k ELSE r1]
 
 Init ==
   /\ tr \in Transports
@@ -60,7 +68,7 @@ Init ==
   /\ sn = 0 /\ sr = 0 /\ conn = "none" /\ chan = FALSE /\ nref = 0 /\ drops = 0 /\ age = 0
   /\ hist = <<>>
 
-Req(m, a, extra) == [m |-> m, auth |-> a.has, n |-> a.n, r |-> a.r, x |-> extra]
+Req(m, a, extra) == [m |-> m, auth |-> a.has, n |-> a.n, r |-> a.r, k |-> a.k, x |-> extra]
 NDrops(rs) == Cardinality({i \in 1..Len(rs) : rs[i] = "drop"})
 
 ---------------------------------------------------------------------------
@@ -78,16 +86,17 @@ AllocRun(rs, i, ni, n, r, reqs) ==
     IF x = "ok" THEN [out |-> "ok", reqs |-> Append(reqs, q), auth |-> ni, sn |-> n, sr |-> r, used |-> i]
     ELSE IF Stale(x)
       THEN LET n1 == n + 1
-               r1 == IF x = "e438r" THEN r + 1 ELSE r
-               ni1 == IF "StaleNonceReuse" \in Deviations /\ ni.has THEN ni ELSE [has |-> TRUE, n |-> n1, r |-> r1]
+               r1 == IF NewRealm(x) THEN r + 1 ELSE r
+               ni1 == IF "StaleNonceReuse" \in Deviations /\ ni.has THEN ni ELSE [has |-> TRUE, n |-> n1, r |-> r1, k |-> r1]       \* allocate() derives its own key
            IN AllocRun(rs, i + 1, ni1, n1, r1, Append(reqs, q))
     ELSE IF x = "badtx" THEN AllocRun(rs, i + 1, ni, n, r, Append(reqs, q))
     ELSE IF x = "drop" THEN [out |-> IF tr = "tcp" THEN "hang" ELSE "failed", reqs |-> Append(reqs, q),
                              auth |-> NoAuth, sn |-> n, sr |-> r, used |-> i]
     ELSE [out |-> "failed", reqs |-> Append(reqs, q), auth |-> NoAuth, sn |-> n, sr |-> r, used |-> i]
 
-AllocScripts == {<<a>> : a \in Reacts} \cup {<<a, b>> : a \in Reacts, b \in Reacts}
-                \cup {<<a, b, c>> : a \in Reacts, b \in Reacts, c \in Reacts}
+AllocScripts == {<<a>> : a \in Reacts}
+                \cup (IF AllocLen >= 2 THEN {<<a, b>> : a \in Reacts, b \in Reacts} ELSE {})
+                \cup (IF AllocLen >= 3 THEN {<<a, b, c>> : a \in Reacts, b \in Reacts, c \in Reacts} ELSE {})
                 \cup (IF "RetryForever" \in Deviations
                       THEN {<<a, b, c, d>> : a \in Reacts, b \in Reacts, c \in Reacts, d \in Reacts} ELSE {})
 
@@ -115,9 +124,11 @@ Exch(m, extra, r1, r2) ==
   LET q1 == Req(m, auth, extra) IN
   IF Stale(r1)
   THEN LET n1 == sn + 1
-           rr1 == IF r1 = "e438r" THEN sr + 1 ELSE sr
-           a1 == [has |-> TRUE, n |-> n1, r |-> rr1]
-       IN [reqs |-> <<q1, Req(m, a1, extra)>>, ok |-> (r2 = "ok"), auth |-> a1, sn |-> n1, sr |-> rr1,
+           rr1 == IF NewRealm(r1) THEN sr + 1 ELSE sr
+           a1 == Renew(auth, n1, rr1)
+       IN \* a second stale answer is not acted on (the server has issued yet another nonce, the client keeps a1)
+          [reqs |-> <<q1, Req(m, a1, extra)>>, ok |-> (r2 = "ok"), auth |-> a1,
+           sn |-> (IF Stale(r2) THEN n1 + 1 ELSE n1), sr |-> (IF NewRealm(r2) THEN rr1 + 1 ELSE rr1),
            used |-> <<r1, r2>>]
   ELSE [reqs |-> <<q1>>, ok |-> (r1 = "ok"), auth |-> auth, sn |-> sn, sr |-> sr, used |-> <<r1>>]
 
@@ -137,7 +148,7 @@ Connect(p1, b) ==
             bind == Req("ChannelBind", auth, "peer")
             bound == okp /\ b = "ok"
             via  == IF bound THEN "ChannelData" ELSE "Send"
-            dat(x) == [m |-> via, auth |-> (via = "Send" /\ auth.has), n |-> auth.n, r |-> auth.r, x |-> x]
+            dat(x) == [m |-> via, auth |-> (via = "Send" /\ auth.has), n |-> auth.n, r |-> auth.r, k |-> auth.k, x |-> x]
             reqs == IF ~able THEN <<>>
                     ELSE IF ~okp THEN <<perm>>
                     ELSE IF bound THEN <<perm, bind, dat("check"), perm, dat("nominate")>>
@@ -154,8 +165,10 @@ Connect(p1, b) ==
                            \cup (IF able /\ p1 = "drop" THEN {"RequestRetransmission"} ELSE {})
                            \cup (IF auth.has /\ tr = "tcp" THEN {"RelayCandidateTransport"} ELSE {})
                            \cup (IF "DataBeforePermission" \in Deviations THEN {"PermissionBeforeData"} ELSE {})])
+  /\ sn' = (IF auth.has /\ tr = "udp" /\ Stale(p1) THEN sn + 1 ELSE sn)
+  /\ sr' = (IF auth.has /\ tr = "udp" /\ NewRealm(p1) THEN sr + 1 ELSE sr)
   /\ pc' = "run"
-  /\ UNCHANGED <<tr, alloc, life, auth, sn, sr, nref, age>>
+  /\ UNCHANGED <<tr, alloc, life, auth, nref, age>>
 
 SkipConnect ==
   /\ pc = "connect" /\ pc' = "run"
@@ -167,7 +180,7 @@ Data ==
   /\ ~(\E i \in 1..Len(hist) : hist[i].op = "data")
   /\ hist' = Append(hist, [op |-> "data", reacts |-> <<>>,
                            reqs |-> <<[m |-> IF chan THEN "ChannelData" ELSE "Send", auth |-> (~chan /\ auth.has),
-                                       n |-> auth.n, r |-> auth.r, x |-> "app"]>>,
+                                       n |-> auth.n, r |-> auth.r, k |-> auth.k, x |-> "app"]>>,
                            out |-> "delivered", flags |-> {}])
   /\ UNCHANGED <<tr, pc, alloc, life, auth, sn, sr, conn, chan, nref, drops, age>>
 
@@ -185,19 +198,19 @@ Refresh(a1, a2, p1, p2, c1, c2) ==
               P  == LET q1 == Req("CreatePermission", A.auth, "peer") IN
                     IF Stale(p1)
                     THEN LET n1 == A.sn + 1
-                             r1 == IF p1 = "e438r" THEN A.sr + 1 ELSE A.sr
-                             au == [has |-> TRUE, n |-> n1, r |-> r1]
+                             r1 == IF NewRealm(p1) THEN A.sr + 1 ELSE A.sr
+                             au == Renew(A.auth, n1, r1)
                          IN [reqs |-> <<q1, Req("CreatePermission", au, "peer")>>, ok |-> (p2 = "ok"), auth |-> au,
-                             sn |-> n1, sr |-> r1, used |-> <<p1, p2>>]
+                             sn |-> (IF Stale(p2) THEN n1 + 1 ELSE n1), sr |-> r1, used |-> <<p1, p2>>]
                     ELSE [reqs |-> <<q1>>, ok |-> (p1 = "ok"), auth |-> A.auth, sn |-> A.sn, sr |-> A.sr, used |-> <<p1>>]
               C  == IF ~chan THEN [reqs |-> <<>>, ok |-> TRUE, auth |-> P.auth, sn |-> P.sn, sr |-> P.sr, used |-> <<>>]
                     ELSE LET q1 == Req("ChannelBind", P.auth, "peer") IN
                     IF Stale(c1)
                     THEN LET n1 == P.sn + 1
-                             r1 == IF c1 = "e438r" THEN P.sr + 1 ELSE P.sr
-                             au == [has |-> TRUE, n |-> n1, r |-> r1]
+                             r1 == IF NewRealm(c1) THEN P.sr + 1 ELSE P.sr
+                             au == Renew(P.auth, n1, r1)
                          IN [reqs |-> <<q1, Req("ChannelBind", au, "peer")>>, ok |-> (c2 = "ok"), auth |-> au,
-                             sn |-> n1, sr |-> r1, used |-> <<c1, c2>>]
+                             sn |-> (IF Stale(c2) THEN n1 + 1 ELSE n1), sr |-> r1, used |-> <<c1, c2>>]
                     ELSE [reqs |-> <<q1>>, ok |-> (c1 = "ok"), auth |-> P.auth, sn |-> P.sn, sr |-> P.sr, used |-> <<c1>>]
               used == A.used \o P.used \o C.used
           IN /\ Cardinality({k \in {1, 2, 3} : <<a1, p1, c1>>[k] # "ok"}) <= RefreshFaults
@@ -259,6 +272,9 @@ FreshNonce ==
   \A i \in 1..Len(hist) : hist[i].op = "gather" =>
     \A k \in 1..Len(hist[i].reqs) - 1 :
       Stale(hist[i].reacts[k]) => hist[i].reqs[k + 1].auth /\ hist[i].reqs[k + 1].n > hist[i].reqs[k].n
+\* C16: the MESSAGE-INTEGRITY of every authenticated message is keyed with the realm that message carries
+KeyMatchesRealm ==
+  \A i \in 1..Len(hist) : \A j \in 1..Len(hist[i].reqs) : hist[i].reqs[j].auth => hist[i].reqs[j].k = hist[i].reqs[j].r
 \* nothing is relayed to a peer before a permission for it was granted
 PermissionFirst ==
   \A i \in 1..Len(hist) : "PermissionBeforeData" \notin hist[i].flags
